@@ -73,7 +73,7 @@ MT = ['StartControlConnectionRequest', 'StartControlConnectionReply', 'StartCont
 for _m in MT:
     enum_values[(None, _m)] = _m
     enum_values[('MessageType', _m)] = _m
-unit_values = {}
+unit_values = {'true': 'true', 'false': 'false'}
 field_access = {'unused': 'v_unused', 'reserved': 'v_reserved', 'version': 'v_version',
                 'payload_length': 'h_payload_length', 'vendor_id': 'h_vendor', 'attribute_type': 'h_type', 'flags': 'h_flags'}
 ctor_test = {'MessageType': 'is_msgtype %s'}
@@ -283,3 +283,64 @@ def loop_hook(tr, e, env, k):
             return tr.block(body, env3, lambda v2, env4: cont(env4))
         return tr.on(o, leaf)
     return tr.ev(scrut, env, after_scrut)
+
+
+# ---------------------------------------------------------------- encoders
+field_access_impl = {
+    ('ValidationOptions', 'unused'): 'v_unused', ('ValidationOptions', 'reserved'): 'v_reserved', ('ValidationOptions', 'version'): 'v_version',
+    ('DataMessage', 'is_prioritized'): 'd_prio', ('DataMessage', 'length'): 'd_length', ('DataMessage', 'tunnel_id'): 'd_tunnel',
+    ('DataMessage', 'session_id'): 'd_session', ('DataMessage', 'ns_nr'): 'd_nsnr', ('DataMessage', 'offset'): 'd_offset',
+    ('DataMessage', 'data'): 'd_data',
+    ('ControlMessage', 'length'): 'c_length', ('ControlMessage', 'tunnel_id'): 'c_tunnel', ('ControlMessage', 'session_id'): 'c_session',
+    ('ControlMessage', 'ns'): 'c_ns', ('ControlMessage', 'nr'): 'c_nr', ('ControlMessage', 'avps'): 'c_avps',
+    ('Error', 'error_type'): 'fst', ('Error', 'error_message'): 'snd',
+    ('Header', 'payload_length'): 'h_payload_length', ('Header', 'vendor_id'): 'h_vendor', ('Header', 'attribute_type'): 'h_type',
+    ('Header', 'flags'): 'h_flags',
+}
+ENUM_CODE = {'ErrorType': 'et_code', 'ProxyAuthenType': 'pa_code', 'StopCcnCode': 'sc_code', 'CdnCode': 'cd_code', 'CodeValue': None}
+defaults['Flags'] = '0'
+for_hook = None
+
+
+def _hook_into(tr, recv, args, env, k):
+    """x.into(): identity for the raw code value, the code table for the crate's enumerations"""
+    ty = tr.sty(recv, env)
+    if ty in ENUM_CODE:
+        f = ENUM_CODE[ty]
+        return tr.ev(recv, env, lambda v, env2: k(tr.vmap(v, lambda x: Pure('(%s %s)' % (f, paren(tr.text(x)))) if f else x), env2))
+    raise Unsupported('into() on a value of type %s' % ty)
+
+
+method_hooks['into'] = _hook_into
+
+
+def matches_test(tr, pat_expr):
+    # matches!(self, Hidden(_))
+    if pat_expr[0] == 'call' and pat_expr[1][0] == 'path' and pat_expr[1][1][-1] == 'Hidden':
+        return 'is_hidden %s'
+    return None
+
+
+def _for_hook(tr, e, env, k):
+    """for avp in self.avps.iter() { avp.write(writer); }  ->  the Model's fold over the list"""
+    _, pat, it, body = e
+    if (pat[0] == 'pvar' and body[2] is None and len(body[1]) == 1 and body[1][0][0] == 'expr'
+            and body[1][0][1] == ('mcall', ('path', [pat[1]]), 'write', [('path', ['writer'])]) and '__w' in env):
+        def g(v, env2):
+            w2 = tr.g.fresh('w')
+            return 'obind (m_enc_avps_w %s %s) (fun %s => %s)' % (paren(tr.text(v)), env2['__w'], w2, k(Ctor('Unit'), dict(env2, __w=w2)))
+        return tr.ev(it, env, g)
+    raise Unsupported('for loop outside the supported schema')
+
+
+for_hook = _for_hook
+
+
+def _hook_wr_payload(tr, args, env, k):
+    # WritableAVP::write(self, writer): enum_dispatch to the per-type write, each tied separately
+    return tr.ev(args[0], env, lambda v, env2: k(Ctor('Unit'), dict(env2, __w='(wr_payload %s %s)' % (paren(tr.text(v)), env2['__w']))))
+
+
+call_hooks[('WritableAVP', 'write')] = _hook_wr_payload
+
+word_structs = {'Flags', 'AvpFlags'}
